@@ -120,6 +120,39 @@ theorem run_shape (ρ : List FunDef) : ∀ (f : Nat) (j : Job) (s : St), (run ρ
             have e2 := shape_addAll _ _ _ h2
             ihrun ih (.node fd.body) s2
             cases oo <;> simp only [] <;> (rw [hh, e2, e1])
+    | guardFn fid args =>
+      simp only [run]
+      split
+      · rfl
+      · rename_i fd hfd
+        split
+        · rfl
+        · rename_i g hg
+          refine withStack_shape _ _ (fun t => ?_)
+          split
+          · rfl
+          · rename_i s2 h2
+            have e2 := shape_addAll _ _ _ h2
+            ihrun ih (.node g) s2
+            cases oo <;> simp only [] <;> (rw [hh, e2])
+    | dispatch cands args =>
+      simp only [run]
+      split
+      · rfl
+      · rename_i g rest
+        split
+        · rfl
+        · rename_i fd hfd
+          split
+          · exact ih _ _
+          · split
+            · exact ih _ _
+            · ihrun ih (.guardFn g args) s
+              cases oo <;> try exact hh
+              simp only []
+              split
+              · rw [ih]; exact hh
+              · rw [ih]; exact hh
     | catches cs exc =>
       simp only [run]
       split
@@ -288,7 +321,8 @@ theorem run_shape (ρ : List FunDef) : ∀ (f : Nat) (j : Job) (s : St), (run ρ
         cases o <;> simp [hc]
       | def_ name fid =>
         simp only [run]
-        split <;> rfl
+        repeat' split
+        all_goals rfl
       | call unused fe args =>
         simp only [run]
         refine withFnCall_shape _ _ (fun t0 => ?_)
